@@ -424,45 +424,57 @@ def length_case(case):
 
 # ------------------------------------------------------------------------------------------ var()
 
-def var_case(case):
-    """case: dict(env={'--x': 'value text'}, value='value text').  Calls the loop of ComputedStyle.__missing__
-    (resolve_var on each token of the pending value) with a dict as `computed`.
-    -> dict(env=[[stored key, tokens]], tokens, code, out)"""
+def _style(envtext):
+    """a real ComputedStyle (root element) whose cascaded custom properties are the given ones"""
     import tinycss2
-    from weasyprint.css import resolve_var
+    from weasyprint.css import ComputedStyle
     from weasyprint.css.utils import remove_whitespace
-
-    class Env(dict):
-        def __missing__(self, key):
-            return []
-    atoms = {}
-    env = Env()
-    jenv = []
-    for k, v in case['env'].items():
+    cascaded = {}
+    for k, v in envtext.items():
         toks = tuple(remove_whitespace(tinycss2.parse_component_value_list(v)))
-        key = k.replace('-', '_')
-        env[key] = toks
-    for key, toks in env.items():
-        jenv.append([_clean(key), [tok_json(t, atoms) for t in toks]])
-    tokens = tuple(remove_whitespace(tinycss2.parse_component_value_list(case['value'])))
-    jt = [tok_json(t, atoms) for t in tokens]
-    code, out, site = 0, [], None
-    try:
-        solved = []
-        for token in tokens:
-            r = resolve_var(env, token, None)
-            if r is None:
-                solved.append(token)
-            else:
-                solved.extend(r)
-        out = [tok_json(t, atoms) for t in solved]
-    except TypeError as exc:
-        code, site = 1, _site(exc)
-    except RecursionError as exc:
-        code, site = 2, _site(exc)
-    except Exception as exc:   # noqa
-        code, site = 3, _site(exc)
-    return dict(env=jenv, tokens=jt, code=code, out=out, site=site)
+        if toks:      # preprocess_declarations drops a custom property without tokens
+            cascaded[k.replace('-', '_')] = (toks, 0)
+    return ComputedStyle(None, cascaded, None, None, None, None)
+
+
+def _resolve_all(style, tokens):
+    from weasyprint.css import resolve_var
+    solved = []
+    for token in tokens:
+        r = resolve_var(style, token, None)
+        if r is None:
+            solved.append(token)
+        else:
+            solved.extend(r)
+    return solved
+
+
+def var_case(case):
+    """case: dict(env={'--x': 'value text'}, values=['value text', ...]).  The loop of ComputedStyle.__missing__
+    (resolve_var on each token of a pending value) for each value in turn on ONE real ComputedStyle - the
+    declarations of one element - and each on a style of its own.
+    -> dict(env=[[stored key, tokens]], items=[dict(tokens, code, out, site, alone=[code, out])])"""
+    import tinycss2
+    from weasyprint.css.utils import remove_whitespace
+    atoms = {}
+    style = _style(case['env'])
+    jenv = [[_clean(k), [tok_json(t, atoms) for t in v[0]]] for k, v in style.cascaded.items()]
+    items = []
+    for value in case.get('values') or [case['value']]:
+        tokens = tuple(remove_whitespace(tinycss2.parse_component_value_list(value)))
+        jt = [tok_json(t, atoms) for t in tokens]
+        res = []
+        for st in (style, _style(case['env'])):
+            code, out, site = 0, [], None
+            try:
+                out = [tok_json(t, atoms) for t in _resolve_all(st, tokens)]
+            except RecursionError as exc:
+                code, site = 2, _site(exc)
+            except Exception as exc:   # noqa
+                code, site = 3, _site(exc)
+            res.append((code, out, site))
+        items.append(dict(tokens=jt, code=res[0][0], out=res[0][1], site=res[0][2], alone=[res[1][0], res[1][1]]))
+    return dict(env=jenv, items=items)
 
 
 # ------------------------------------------------------------------------------------------ renders
@@ -615,18 +627,6 @@ def _pending_of(name, value):
     return obj, [k.replace('_', '-') for k, v, _ in out if v is obj]
 
 
-def _solved(obj, env):
-    from weasyprint.css import resolve_var
-    solved = []
-    for token in obj.tokens:
-        r = resolve_var(env, token, None)
-        if r is None:
-            solved.append(token)
-        else:
-            solved.extend(r)
-    return solved
-
-
 def _solve(obj, solved, key):
     """one call of Pending.solve on obj: (code, value id, number of warnings)"""
     from weasyprint.css import utils
@@ -655,9 +655,6 @@ def pending_seq(case):
     from weasyprint.css.utils import InvalidValues, remove_whitespace
     from weasyprint.css.validation.properties import validate_non_shorthand
 
-    class Env(dict):
-        def __missing__(self, key):
-            return []
     obj, keys = _pending_of(case['name'], case['value'])
     if obj is None or not keys:
         return None
@@ -665,14 +662,8 @@ def pending_seq(case):
     shorthand = obj.name if is_property else obj.validator.keywords['name']
     calls, shared, fresh = [], [], []
     for c in case['calls']:
-        env = Env()
-        for k, v in c['env'].items():
-            env[k.replace('-', '_')] = tuple(remove_whitespace(tinycss2.parse_component_value_list(v)))
         key = keys[c['key'] % len(keys)]
-        try:
-            solved = _solved(obj, env)
-        except (TypeError, RecursionError):
-            return None
+        solved = _resolve_all(_style(c['env']), obj.tokens)
         # the trace of the validator on the substituted tokens
         items, end = [], 0
         try:
@@ -689,7 +680,7 @@ def pending_seq(case):
         calls.append([not solved, items, end, _clean(key)])
         shared.append(_solve(obj, solved, key))
         fobj, _ = _pending_of(case['name'], case['value'])
-        fresh.append(_solve(fobj, _solved(fobj, env), key))
+        fresh.append(_solve(fobj, _resolve_all(_style(c['env']), fobj.tokens), key))
     return dict(is_property=is_property, shorthand=_clean(shorthand), keys=keys, calls=calls, shared=shared, fresh=fresh)
 
 
